@@ -41,6 +41,16 @@ CHECKS["C01"] = dict(
     ref="DESIGN.md 4/C01",
     note=NOTE_COMMON + "Arc._svg_parameterize is replaced by a recorder in this check (arguments compared; geometry is C05). Outside: longer sequences.")
 
+CHECKS["C01"]["text"] += (" Tokenisation: templates of adjacent tokens (every number spelling class incl. signs, leading dot, exponents, separator-free "
+                          "forms '1-2' and '.5.5', packed arc flags, any comma/whitespace character of the XML wsp set) with every digit, sign, flag and separator "
+                          "a symbolic character are run through the module's own token regexes (interpreted from their compiled patterns) and proved against maximal-munch values.")
+CHECKS["C17"] = dict(
+    text="For every way a can end x every way b can begin (all 2-command sequences after a leading move, cut between them; 3-command chains cut at every "
+         "boundary and into three pieces) Path(a)+b, +=, parse(b) and Move-segment+b are proved segment-for-segment equal to the specification interpreter "
+         "run on the unsplit string, with all numbers symbolic; Path+Path and Path+Shape keep both geometries and leave operands unchanged.",
+    ref="DESIGN.md 4/C17",
+    note=NOTE_COMMON + "Arc._svg_parameterize replaced by a recorder. Outside: longer sequences; Path.append/extend with strings.")
+
 NOT_APPLICABLE = {
 }
 
